@@ -649,7 +649,7 @@ GROUPS = {
     'c04': [minimizer_structures],
     'c07': [store_helpers],
     'c11': [partition_accessors],
-    'c13': [builder_helpers],
+    'c13': [builder_helpers, automaton_accessors],
     'c14': [automaton_accessors, table_helpers],
     'c17': [string_helpers],
     'c16': [matcher_leaves, regex_predicates],
